@@ -132,6 +132,8 @@ class Translator(object):
     def expr(self, n):
         self.loc(n)
         k = n.get('kind')
+        if k == 'ImplicitCastExpr' and n.get('castKind') == 'NullToPointer':
+            return const(None)
         if k in ('ImplicitCastExpr', 'ParenExpr', 'ExprWithCleanups', 'ConstantExpr'):
             if k == 'ConstantExpr' and 'value' in n:
                 try:
@@ -169,6 +171,8 @@ class Translator(object):
         if k == 'CStyleCastExpr':
             inner = n['inner'][0]
             qt = self.qualtype(n)
+            if qt.endswith('*') and self.strip(inner).get('kind') == 'IntegerLiteral' and self.strip(inner).get('value') == '0':
+                return const(None)
             m = re.match(r'^(?:const\s+)?(?:struct\s+)?(\w+)\s*\*$', qt)
             if qt in self.constants.get('__enum_types__', ()):
                 cv = const_value(inner, self.constants)
@@ -513,11 +517,36 @@ class Translator(object):
                 self.loop_depth_in_switch[-1] -= 1
             incs = []
             self.expr_stmt(inc, incs)
-            out.append(pyast.While(test=self.truth(cond), body=b + incs, orelse=[]))
             if any(isinstance(x, pyast.Continue) for s in b for x in pyast.walk(s)):
-                raise EngineError('C front end: continue inside a counted for loop')
+                # `continue` must still run the increment: guard the rest of the iteration with a flag
+                self.tmp += 1
+                flag = '__cont%d' % self.tmp
+                b = [pyast.Assign(targets=[name(flag, pyast.Store())], value=const(False))] + self.guard_continue(b, flag)
+            out.append(pyast.While(test=self.truth(cond), body=b + incs, orelse=[]))
             return
         self.err('for loop shape', n)
+
+    def guard_continue(self, stmts, flag):
+        out = []
+        for idx, s in enumerate(stmts):
+            if isinstance(s, pyast.Continue):
+                out.append(pyast.Assign(targets=[name(flag, pyast.Store())], value=const(True)))
+                return out
+            has = any(isinstance(x, pyast.Continue) for x in pyast.walk(s))
+            if has:
+                if isinstance(s, (pyast.For, pyast.While)):
+                    raise EngineError('C front end: continue in a nested loop of a counted loop')
+                if not isinstance(s, pyast.If):
+                    raise EngineError('C front end: continue in an unsupported position')
+                new_if = pyast.If(test=s.test, body=self.guard_continue(s.body, flag) or [pyast.Pass()],
+                                  orelse=self.guard_continue(s.orelse, flag))
+                out.append(new_if)
+                rest = self.guard_continue(stmts[idx + 1:], flag)
+                if rest:
+                    out.append(pyast.If(test=pyast.UnaryOp(op=pyast.Not(), operand=name(flag)), body=rest, orelse=[]))
+                return out
+            out.append(s)
+        return out
 
     def uses_other_than_data(self, body, lv):
         """does the loop body use the list cursor other than as cursor->data ?"""
